@@ -1,10 +1,20 @@
 (* C11 - Decoding result does not depend on the kind of input object.
-   Only statements closed by [exact]; proofs live in Proofs/Wrapper.v, the model in Model/Wrapper.v.
+   Only statements closed by [exact]; proofs live in Proofs/Wrapper.v and Proofs/WrapperAnyRaw.v,
+   the model in Model/Wrapper.v.
 
-   [wstep Fix] is CachingStreamWrapper as repaired by fixes/F06.diff (dropped octets kept as an
-   offset); [wstep Cur] is the class as it stands in the repository (finding F06: numbering
-   restarts when the cache is dropped).  [bufsize] stands for io.DEFAULT_BUFFER_SIZE; every
-   theorem holds for every value of it. *)
+   The seek-back wrapper is modelled statement by statement in the variants that exist:
+     [wstep Cur]  CachingStreamWrapper as it stands in the repository.  Finding F06: numbering
+                  restarts when the cache is dropped.  F06 is OPEN: the repair makes one assertion
+                  of the existing suite fail (testMarkedPositionResets pins markedPosition == 0).
+     [wstep Fix]  the class as repaired by fixes/F06.diff (dropped octets kept as an offset).
+     [gwstep f05 v]  either of them over an arbitrary raw stream; f05 = fixes/F05.diff applied
+                  (None from the raw stream), f05 = false is the class without it (finding F05).
+   What speaks about the code in the repository today: C11_wrapper_refines_current_partial (the
+   refinement outside F06's class) and C11_refuted_renumber_old (failure inside it); the theorems
+   about [Fix] show that fixes/F06.diff is a complete repair.  On every run the harness replays the
+   witness of C11_refuted_renumber_old on the real class to learn which variant it is, and compares
+   the real class with that variant of the model on every generated history.
+   [bufsize] stands for io.DEFAULT_BUFFER_SIZE; every theorem holds for every value of it. *)
 From PV Require Import Base.Bytes Model.Wrapper Proofs.Wrapper Proofs.WrapperAnyRaw.
 
 (* The seek-back wrapper behaves, for every history of reads, peeks, marks set at the current
